@@ -895,7 +895,7 @@ class MaterialIndexer(Indexer):
                     other_index, = idata.any(0).nonzero()
                     CASs = other.chemicals.CASs
                     self_index = chemicals.indices([CASs[i] for i in other_index])
-                    data[:, self_index] -= idata[:, other_index]
+                    data[:, self_index] = data[:, self_index] - idata[:, other_index] # A column selection is a read-only copy
             else:
                 if chemicals is other.chemicals:
                     for phase, idata in zip(other.phases, idata):
